@@ -2,7 +2,7 @@
    [L r s]: the string s belongs to the language of r (inductive definition; the order of
    alternatives plays no role).  [matches] is the derivative-based decision procedure the
    implementation is compared with on every run. *)
-Require Import Regex RegexProofs RegexBT RegexBTProofs RegexWrap RegexWrapProofs.
+Require Import Regex RegexProofs RegexBT RegexBTProofs RegexWrap RegexWrapProofs RegexClasses RegexClassesProofs.
 From Coq Require Import List Arith Bool.
 Import ListNotations.
 
@@ -111,3 +111,29 @@ Example C17_spelling_witness :
   inside_group true true false false false [91; 91; 61; 97; 61; 93; 98; 91; 46; 45; 46; 93; 93] = [91; 97; 98; 91; 46; 45; 46; 93; 93].
 Proof. vm_compute. repeat split. Qed.
 
+
+(* The pattern goes through several scanners before it is compiled - the validators, the spelling passes, the engine's own lexer -
+   and each reads bracket expressions in its own way (GNU's reading: "[:" "[." "[=" run to their own ":]" ".]" "=]"; the engine
+   has no collating symbols and ends a class at the first "]").  What keeps them together: where the reading of check_classes
+   accepts a pattern and every collating symbol and equivalence class names an ordinary character ([gnu_out]: the text outside
+   bracket expressions, 0 for each of them), check_classes' model accepts it, and the engine, reading what spell_collating wrote
+   ([EngOut]), finds the same text outside bracket expressions and a bracket expression exactly where GNU's reading has one - for
+   every pattern, whatever stands in the brackets.  The condition is the boundary of the known finding collating-specials:
+   the witness below has a symbol naming "-", is accepted, and the engine closes its bracket expression early. *)
+Theorem C17_scanners_agree_on_brackets : forall cls fuel p o,
+  gnu_out fuel cls p = Some o -> classes_scan fuel cls p = true /\ EngOut cls (collp cls CT p) o.
+Proof. intros cls fuel p o H. split; [exact (gnu_out_accepts cls fuel p o H)|exact (readers_agree cls fuel p o H)]. Qed.
+Print Assumptions C17_scanners_agree_on_brackets.
+
+(* "x[[.a.]-c[:digit:]]y[^][=b=]]\[z" is read as x 0 y 0 \[ z ; "[[.-.]x]" is accepted by check_classes, is outside the theorem's
+   condition, and the engine ends the bracket expression of the (unchanged) text at the "]" of ".]" : "x]" is left over *)
+Example C17_scanners_witness :
+  gnu_out 40 true [120; 91; 91; 46; 97; 46; 93; 45; 99; 91; 58; 100; 105; 103; 105; 116; 58; 93; 93; 121; 91; 94; 93; 91; 61; 98; 61; 93; 93; 92; 91; 122]
+    = Some [120; 0; 121; 0; 92; 91; 122] /\
+  collp true CT [120; 91; 91; 46; 97; 46; 93; 45; 99; 91; 58; 100; 105; 103; 105; 116; 58; 93; 93; 121]
+    = [120; 91; 97; 45; 99; 91; 58; 100; 105; 103; 105; 116; 58; 93; 93; 121] /\
+  classes_ok true [91; 91; 46; 45; 46; 93; 120; 93] = true /\
+  gnu_out 20 true [91; 91; 46; 45; 46; 93; 120; 93] = None /\
+  collp true CT [91; 91; 46; 45; 46; 93; 120; 93] = [91; 91; 46; 45; 46; 93; 120; 93] /\
+  eng_members true false [91; 46; 45; 46; 93; 120; 93] = Some [120; 93].
+Proof. vm_compute. repeat split. Qed.
